@@ -23,7 +23,8 @@ ASSUMPTIONS = ["mc/ref/spake2.py (own HKDF, own group arithmetic, affine Edwards
 EXHAUSTIVE = True
 
 STRUCT_PW = [b" a", b"a ", b"a\n", b"\ta", b"A", b"a", b"a\x00", b"\x00a", b"\x00", b"\x00\x00", b"ab", b"ba",
-             b"p" * 63, b"p" * 64, b"p" * 65, b"p" * 200, b"p" * 64 + b"1", b"p" * 64 + b"2", b"\xff\xfe", b"\xc3\xa9"]
+             b"p" * 63, b"p" * 64, b"p" * 65, b"p" * 200, b"p" * 64 + b"1", b"p" * 64 + b"2", b"\xff\xfe", b"\xc3\xa9",
+             b"q" * 127, b"q" * 128, b"q" * 129, b"q" * 255, b"q" * 256, b"q" * 257, b"q" * 300, b"q" * 1024, b"q" * 1025, b"q" * 5000]
 
 
 def bounds(tier):
@@ -236,6 +237,31 @@ def _shipped_task(task):
         ids = C.ids_for(side, j + len(pw))
         check_session(inst, side, pw, ids, x, inbounds, acc, do_fresh=(j % 2 == 0 or tier != "quick"))
         acc.inst(name, sessions=1)
+    # entropy streams that make the sampler re-draw many times before the scalar is accepted (integer groups): the message is
+    # still side byte + encode(x*G + w*M) for the scalar finally drawn
+    if R.kind == "int" and xs and pw == b"password":
+        k = R.ssize
+        top = (1 << q.bit_length()) - 1
+        for chain in (1, 2, 5, 16, 17, 40):
+            x = xs[chain % len(xs)]
+            answers = [(top - (i % 5)).to_bytes(k, "big") if top - (i % 5) >= q else q.to_bytes(k, "big") for i in range(chain)] + [x.to_bytes(k, "big")]
+            s = inst.new(side, pw, C.ids_for(side, chain), entropy=T.Script(answers, cap=500))
+            got = T.observe(s.start)
+            acc.n(states=1, transitions=1)
+            if got[0] != "ok":
+                acc.violation("C03/%s/%s/start-raises-after-redraws" % (fam(inst), side),
+                              {"what": "start() raises when the entropy function makes the sampler re-draw %d times" % chain,
+                               "replay": {"fn": "start-entropy", "inst": inst.desc, "side": side, "pw": pw, "ids": list(C.ids_for(side, chain)), "answers": answers},
+                               "expected": "message", "observed": got})
+                continue
+            xo = T.read_scalar(inst, s)
+            xo = x if xo is None else xo
+            exp = RS.message(rp, side, w, xo)
+            if got != ("ok", exp):
+                acc.violation("C03/%s/%s/start-message" % (fam(inst), side),
+                              {"what": "start() message differs from side byte + encode(x*G + w*blinding) after re-draws",
+                               "replay": {"fn": "start-entropy", "inst": inst.desc, "side": side, "pw": pw, "ids": list(C.ids_for(side, chain)), "answers": answers},
+                               "expected": exp, "observed": got})
     if xs:
         acc.sample({"inst": name, "side": side, "pw": pw, "x": str(xs[-1]), "message_bytes": 1 + R.esize})
     return acc
@@ -250,13 +276,38 @@ def _pattern_task(task):
         acc.degrade("%s unavailable: %s" % (name, why))
         return acc
     pw = b"password"
-    sess = C.pattern_sessions(inst, side, pw, level)
+    sess = C.PATTERNS.get((name, side, pw, level)) or C.pattern_sessions(inst, side, pw, level)
     mine = sess[part::nparts]
-    for j, (x, inbound, tag) in enumerate(mine):
+    for j, (x, y, inbound, tag) in enumerate(mine):
         check_session(inst, side, pw, C.ids_for(side, j), x, [inbound], acc, do_restored=(j % 3 == 0))
     acc.inst(name, pattern_sessions=len(mine))
     if mine and part == 0:
-        acc.sample({"inst": name, "side": side, "byte_pattern_session": mine[0][2], "x": str(mine[0][0])})
+        acc.sample({"inst": name, "side": side, "byte_pattern_session": mine[0][3], "x": str(mine[0][0])})
+    return acc
+
+
+def _rare_task(task):
+    """shipped groups, password scalar forced to 0 (wrapper group): the message is x*G itself, so the frozen 'rare' multiples
+    put blinded elements with two leading/trailing zero bytes, modulus-prefix bytes etc. on the wire in both directions"""
+    name, side = task
+    acc = Acc()
+    try:
+        inst = shipped_variant(name, 0)
+    except Exception as e:
+        acc.degrade("%s wrapper unavailable: %s: %s" % (name, type(e).__name__, e))
+        return acc
+    rare = sorted(C.rare_multiples(name).items())
+    if not rare:
+        acc.degrade("no rare multiples for %s" % name)
+        return acc
+    pw = b"\x00w0"
+    peer = C.PEER[side]
+    ks = [k for _, k in rare]
+    for j, (cls, k) in enumerate(rare):
+        inbounds = [RS.message(inst.rp, peer, 0, ks[(j + 1) % len(ks)]), RS.message(inst.rp, peer, 0, ks[(j + 5) % len(ks)])]
+        check_session(inst, side, pw, C.ids_for(side, j), k % inst.q, inbounds, acc, do_restored=(j % 2 == 0))
+        acc.seen((name, side, "rare", cls))
+    acc.inst(name, rare_sessions=len(rare))
     return acc
 
 
@@ -408,6 +459,9 @@ def run(tier, seed):
             for pw in pws:
                 for xc in core.chunks(xs, 2 if quick else 4):
                     stasks.append((name, side, pw, xc, tier, seed))
+            # password length boundaries (one scalar each)
+            for pw in [b"q" * n for n in ((256, 257, 1025) if quick else (31, 32, 33, 63, 64, 65, 127, 128, 129, 255, 256, 257, 300, 1024, 1025, 5000))]:
+                stasks.append((name, side, pw, xs[2:3], tier, seed))
     stasks.sort(key=lambda t: -T.get(t[0]).ref.esize)
     core.pmerge(_shipped_task, stasks, acc)
     ptasks = []
@@ -419,7 +473,9 @@ def run(tier, seed):
             for part in range(np_):
                 ptasks.append((name, side, 0 if quick else 1, part, np_))
     ptasks.sort(key=lambda t: -T.get(t[0]).ref.esize)
+    C.prepare_patterns(T.SHIPPED, "ABS", b"password", 0 if quick else 1)
     core.pmerge(_pattern_task, ptasks, acc)
+    core.pmerge(_rare_task, [(n, s) for n in reversed(T.SHIPPED) for s in "ABS"], acc)
     _golden(acc)
     _default_path(acc)
     return acc
@@ -433,6 +489,9 @@ def replay(rec):
     if r["fn"] == "const":
         P = inst.params
         return T.observe(lambda: (P.group.Base if r["which"] == "G" else getattr(P, r["which"])).to_bytes().hex())
+    if r["fn"] == "start-entropy":
+        s = inst.new(r["side"], r["pw"], tuple(r["ids"]), entropy=T.Script(list(r["answers"]), cap=500))
+        return T.observe(s.start)
     side, pw, ids, x = r["side"], r["pw"], tuple(r["ids"]), r["x"]
     s = inst.new(side, pw, ids, x)
     m = T.observe(s.start)
